@@ -10,7 +10,9 @@ import shutil
 import subprocess
 import sys
 
-SEED = "/tmp/seed"
+SEED = os.environ.get("SEED_DIR", "/tmp/seed")
+SUFFIX = os.environ.get("ID_SUFFIX", "")          # e.g. "2" -> ids like C01-A2 for a second round
+ONLY_OWN = bool(os.environ.get("ONLY_OWN"))
 WT = "/tmp/vf_seed_eval"
 OUT = "/verif/seeded"
 ENV = dict(os.environ, OMP_NUM_THREADS="1", MKL_NUM_THREADS="1", PYTHONDONTWRITEBYTECODE="1")
@@ -38,7 +40,7 @@ def main():
         if not (prop.startswith("C") and os.path.isdir(d)):
             continue
         for ab in ("A", "B"):
-            mid = "%s-%s" % (prop, ab)
+            mid = "%s-%s%s" % (prop, ab, SUFFIX)
             src = os.path.join(d, ab)
             if want and mid not in want:
                 continue
@@ -85,7 +87,7 @@ def main():
             confirmed = rc0 == 0 and rc1 != 0 and tests_ok
             rec["confirmed"] = confirmed
             caught, missed = [], []
-            for cid in [prop] + EXTRA.get(prop, []):
+            for cid in [prop] + ([] if ONLY_OWN else EXTRA.get(prop, [])):
                 rcc, outc = sh("./check %s quick" % cid, cwd="/verif", env=dict(ENV, VF_REPO=WT, VERIF_SEED="1"), timeout=1200)
                 first = next((l for l in outc.splitlines() if l.strip().startswith("failure:")), "")
                 (caught if rcc == 1 else missed).append(cid)
@@ -98,8 +100,14 @@ def main():
             print(mid, rec["status"], "caught by", caught, "missed by", missed, flush=True)
     sh("git checkout -q -- . && git clean -fdq", cwd=WT)
     sh("git -C /repo worktree remove --force %s" % WT)
+    rows = []
+    for d in sorted(os.listdir(OUT)):
+        mp = os.path.join(OUT, d, "meta.json")
+        if os.path.exists(mp):
+            m = json.load(open(mp))
+            rows.append({"id": m["id"], "status": m.get("status"), "caught_by": m.get("caught_by", []), "not_caught_by": m.get("not_caught_by", [])})
     with open(os.path.join(OUT, "SUMMARY.json"), "w") as fh:
-        json.dump([{"id": a, "status": b, "caught_by": c, "not_caught_by": d} for a, b, c, d in summary], fh, indent=1)
+        json.dump(rows, fh, indent=1)
 
 
 def _save(mid, src, diff, rec):
